@@ -35,7 +35,7 @@ package alg
 // the spare capacity of dst.  C20: the result is dst ++ htmlSpec(src) whatever the
 // number of "output full" restarts; the destination prefix is preserved.  C06: the
 // result lives in dst's array or a new one.  No panic (GrowSlice's newCap >= len).
-//@ func HtmlEscape props C05,C06,C20
+//@ func HtmlEscape props C05,C06,C20,C04
 //@   requires (base(dst) != base(src) || base(src) == 0)
 //@   modifies dst[_]
 //@   ensures base(result) == base(dst) || fresh(result)
@@ -60,7 +60,7 @@ package alg
 // at the first unconsumed input byte.
 //@ pure func qflags(double bool) uint64 = ite(double, types.F_DOUBLE_UNQUOTE, 0)
 //@ pure func qlen(double bool) int = ite(double, 3, 1)
-//@ func Quote props C05,C06,C20
+//@ func Quote props C05,C06,C20,C12,C04
 //@   modifies buf[_]
 //@   ensures base(result) == base(buf) || fresh(result)
 //@   ensures len(result) >= len(buf) + 2 * qlen(double)
